@@ -8,7 +8,7 @@ ID = 'C04'
 LEVEL = 'exploration'
 TIERS = {'quick': 6000, 'thorough': 300000}
 RULE = ('seeded sessions of 1-6 stream operations (shell, exec_out, streaming_shell, root, list, stat, pull with/without callback, single- and '
-        'multi-WRITE push, also with a device FAIL that overtakes an OKAY, and pulls whose local destination fails mid-transfer so that the stream is closed while a device WRITE is in flight; streaming_shell generators read part-way with other commands run in between; destinations that fill the OPEN payload up to (and slightly beyond) maxdata; generators abandoned after 1-3 chunks; maxdata 256..512 with device paths longer than that) against a strict stop-and-wait adbd model with 32-bit remote ids != local ids; a protocol monitor on the device side '
+        'multi-WRITE push, also with a device FAIL that overtakes an OKAY, and pulls whose local destination fails mid-transfer so that the stream is closed while a device WRITE is in flight; streaming_shell generators read part-way with other commands run in between; commands given timeout_s whose CLSE comes after the deadline (it must still be answered once); destinations that fill the OPEN payload up to (and slightly beyond) maxdata; generators abandoned after 1-3 chunks; maxdata 256..512 with device paths longer than that) against a strict stop-and-wait adbd model with 32-bit remote ids != local ids; a protocol monitor on the device side '
         'runs one state machine per local id with knowledge of which device packets the host has already read. non-trivial = >= 2 streams and '
         '>= 1 multi-WRITE transfer in the run; distinct = event-log digests')
 ASSUMPTIONS = ['the device stalls until the OKAY it is owed arrives, as adbd does, so a missing OKAY becomes a timeout',
